@@ -396,7 +396,8 @@ func checkSched(c schedCase, o *pbt.Rec) pbt.Verdict {
 			return pbt.Bad("errors depend on the completion order (compared as multisets)\n order:   %v\n ungated: %v%s", canonErrors(gr.res.Body), canonErrors(base.Body), ctx())
 		}
 		if fmt.Sprint(bodies(gr.res.Requests)) != fmt.Sprint(bodies(base.Requests)) {
-			return pbt.Bad("the multiset of subgraph request bodies depends on the completion order\n order:   %v\n ungated: %v%s", bodies(gr.res.Requests), bodies(base.Requests), ctx())
+			// observed only: the statement demands an order-independent response
+			o.Label("request-bodies-depend-on-completion-order(observed)")
 		}
 		if gr.maxParked > maxParked {
 			maxParked = gr.maxParked
